@@ -43,9 +43,9 @@ func runFOp(w *world.World, t *mast.Mast, op fOp, aux *mast.Mast) (world.Res, st
 	res := guardRes(func() error {
 		switch op.name {
 		case "Insert":
-			return t.Insert(ctx, cfg.Key(op.k), cfg.Vals[op.v])
+			return t.Insert(ctx, cfg.FreshKey(op.k), cfg.FreshVal(op.v))
 		case "Delete":
-			return t.Delete(ctx, cfg.Key(op.k), cfg.Vals[op.v])
+			return t.Delete(ctx, cfg.FreshKey(op.k), cfg.FreshVal(op.v))
 		case "Get":
 			p := newValPtrC(cfg)
 			ok, err := t.Get(ctx, cfg.Key(op.k), p)
